@@ -9,6 +9,7 @@ import LuaHelper.Driver.HovOps
 import LuaHelper.Driver.PatOps
 import LuaHelper.Driver.OutlineOps
 import LuaHelper.Driver.ModOps
+import LuaHelper.Driver.AnnotOps
 open LuaHelper
 
 def dispatch (cmd : String) (args : List String) : String :=
@@ -40,6 +41,9 @@ def dispatch (cmd : String) (args : List String) : String :=
   | some r => r
   | none =>
   match ModOps.handle cmd args with
+  | some r => r
+  | none =>
+  match AnnotOps.handle cmd args with
   | some r => r
   | none => "bad-op"
 
